@@ -1,7 +1,7 @@
 CONSTANTS
   SuffixUsesStaleLine = FALSE
+  MaxChars = 400
 INIT Init
 NEXT Next
-INVARIANT ParserTotal
 INVARIANT Emit
 CHECK_DEADLOCK FALSE
